@@ -45,6 +45,66 @@ type Sym struct {
 	Deps []*Sym
 	Def  *Term // for define-fun constants: the body (looked through by simplifiers)
 	id   int
+	// Lower: for a fresh allocation counter, a term it is known (assumed on every path that
+	// mentions the symbol) to be >= of. Lets the simplifier tell references apart.
+	Lower *Term
+}
+
+// intNorm writes an integer term as sym + off (sym == nil for a literal).
+func intNorm(t *Term) (*Sym, *big.Int, bool) {
+	t = resolve(t)
+	switch {
+	case t.IsLit && t.Int != nil:
+		return nil, t.Int, true
+	case t.Sym != nil && len(t.Args) == 0:
+		return t.Sym, new(big.Int), true
+	case t.Op == "+" && len(t.Args) == 2:
+		s1, o1, ok1 := intNorm(t.Args[0])
+		s2, o2, ok2 := intNorm(t.Args[1])
+		if !ok1 || !ok2 || (s1 != nil && s2 != nil) {
+			return nil, nil, false
+		}
+		if s1 == nil {
+			s1 = s2
+		}
+		return s1, new(big.Int).Add(o1, o2), true
+	}
+	return nil, nil, false
+}
+
+// intGreater: a > b follows from the recorded lower bounds of allocation counters.
+func intGreater(a, b *Term) bool {
+	sa, oa, ok := intNorm(a)
+	if !ok {
+		return false
+	}
+	sb, ob, ok := intNorm(b)
+	if !ok {
+		return false
+	}
+	acc := new(big.Int).Set(oa)
+	for i := 0; i < 64; i++ {
+		if sa == sb {
+			return acc.Cmp(ob) > 0
+		}
+		if sa == nil || sa.Lower == nil {
+			return false
+		}
+		s, o, ok := intNorm(sa.Lower)
+		if !ok {
+			return false
+		}
+		sa = s
+		acc.Add(acc, o)
+	}
+	return false
+}
+
+func intDistinct(a, b *Term) bool {
+	if a.Sort != SInt || b.Sort != SInt {
+		return false
+	}
+	return intGreater(a, b) || intGreater(b, a)
 }
 
 type Term struct {
@@ -299,17 +359,22 @@ func Eq(a, b *Term) *Term {
 
 func Select(arr, idx *Term) *Term {
 	r := resolve(arr)
+	skipped := false
 	// select over store chains with syntactically decidable indices
 	for r.Op == "store" {
 		if sameTerm(r.Args[1], idx) {
 			return r.Args[2]
 		}
 		ri, rj := resolve(r.Args[1]), resolve(idx)
-		if ri.IsLit && rj.IsLit && ri.Int.Cmp(rj.Int) != 0 {
+		if (ri.IsLit && rj.IsLit && ri.Int.Cmp(rj.Int) != 0) || intDistinct(ri, rj) {
 			r = resolve(r.Args[0])
+			skipped = true
 			continue
 		}
 		break
+	}
+	if skipped && r.Op == "store" {
+		arr = r
 	}
 	if r.Op == "const-array" {
 		return r.Args[0]
@@ -430,6 +495,11 @@ func intBin(op string, a, b *Term) *Term {
 	}
 	if op == "+" && ra.IsLit && ra.Int.Sign() == 0 {
 		return b
+	}
+	// (x + y) + z -> x + (y + z): the slice offset stays the first operand of every element
+	// index, whatever was added to it by reslicing, so triggers of the form s[k] keep matching
+	if op == "+" && a.Op == "+" && len(a.Args) == 2 && a.Sym == nil {
+		return intBin("+", a.Args[0], intBin("+", a.Args[1], b))
 	}
 	if op == "-" && rb.IsLit && rb.Int.Sign() == 0 {
 		return a
